@@ -126,6 +126,16 @@ let () =
       let opno = ref (-1) in
       let segs = List.map (fun o ->
           incr opno;
+          (match o with
+           | "plan" :: r ->
+             (* Runner.Plan, the read-only dry run: signature, extraction, digests; no predecessor / journal checks.  The
+                world is left as it is whatever the verdict (not a step of the Coq model: nothing to step). *)
+             let m = kv r in
+             let seg = if !opno < Array.length isegs then isegs.(!opno) else "" in
+             let refused = String.length seg >= 9 && String.sub seg 0 9 = "plan:err " in
+             let t = tarball_of ~extractor_rejected:refused m in
+             observe !w (if t.t_sig_ok && t.t_members_ok && t.t_digest_ok then "plan:ok" else "plan:err") "-"
+           | _ ->
           let opv = match o with
             | "apply" :: r -> let m = kv r in
               (* admissible only as a refusal that leaves everything as it is *)
@@ -138,7 +148,7 @@ let () =
             | "edit" :: r -> let m = kv r in OpEdit (n_of_int (int_of_string (get m "p")), file_of_spec (get m "f"))
             | _ -> failwith "badop" in
           let (w', (r, mo)) = step v !w opv in
-          w := w'; observe ~ver:(show_ver (step_ver opv w' r)) ~rm:(show_mon (step_res opv w' r)) w' (show_res r) (show_mon mo)) ops in
+          w := w'; observe ~ver:(show_ver (step_ver opv w' r)) ~rm:(show_mon (step_res opv w' r)) w' (show_res r) (show_mon mo))) ops in
       if segs = [] then print_endline (observe !w "init" "-")
       else print_endline (String.concat " | " segs)
     | _ -> print_endline "badline"
